@@ -86,17 +86,24 @@ def _consistent(env):
     return True
 
 
-def entails(premises, goal, limit=14):
+def entails(premises, goal, limit=14, exhaustive=None):
+    """exhaustive: {"is:<Type>::": [variant names]} - exactly one of these atoms is true"""
     names = set()
     for p in premises:
         atoms_of(p, names)
     atoms_of(goal, names)
+    exhaustive = exhaustive or {}
+    for pre, vs in exhaustive.items():
+        if any(n.startswith(pre) for n in names):
+            names |= {pre + v for v in vs}
     names = sorted(names)
     if len(names) > limit:
         return False
     for vals in itertools.product((False, True), repeat=len(names)):
         env = dict(zip(names, vals))
         if not _consistent(env):
+            continue
+        if any(sum(1 for v in vs if env.get(pre + v)) != 1 for pre, vs in exhaustive.items() if any(n.startswith(pre) for n in names)):
             continue
         if all(evaluate(p, env) for p in premises) and not evaluate(goal, env):
             return False
